@@ -3,6 +3,7 @@ use crate::run::Ctx;
 pub mod c05;
 pub mod c06;
 pub mod c07;
+pub mod c08;
 pub mod c20;
 
 pub fn run(ctx: &mut Ctx) -> bool {
@@ -10,6 +11,7 @@ pub fn run(ctx: &mut Ctx) -> bool {
         "C05" => c05::run(ctx),
         "C06" => c06::run(ctx),
         "C07" => c07::run(ctx),
+        "C08" => c08::run(ctx),
         "C20" => c20::run(ctx),
         _ => return false,
     }
